@@ -357,12 +357,15 @@ def c25(prop, tier, replay):
             {"module": "Gen_Flags", "constants": {"Flags": PAR_FLAGS, "MinOn": len(PAR_FLAGS) - 2, "MaxOn": len(PAR_FLAGS)},
              "invariants": ["Emit"], "no_shard_consts": True}]
     extra = [{"par": open(f).read(), "id": f} for f in corpus_pars()]
+    if not replay:
+        extra += [{"par": v["par"], "id": v["id"]} for v in decl_vectors(prop, tier)[0]]
     return simple_check(
         prop, tier, replay, gens, "c25",
         f"feature combinations of the PAR model ({len(PAR_FLAGS)} features: grammar type, %user_type/%nt_type/%t_type, comments, auto newline/ws "
         "off, %allow_unmatched per state, a second scanner state with %on/%enter and %skip, clipped / member-named / user-typed terminals and "
         "non-terminals, positive and negative lookahead): every subset of up to 3 (5) features and every subset missing at most 2, enumerated "
-        "by Gen_Flags.tla, plus every .par file of the repository; the grammar is read, rendered with render_par_string and read back - before "
+        "by Gen_Flags.tla, plus every .par file of the repository and the accepted texts of Gen_Decl.tla (scanner directives x definition "
+        "shapes); the grammar is read, rendered with render_par_string and read back - before "
         "and after check_and_transform_grammar; ParModel.tla compares the two models field by field (start, type, title, comment, type "
         "declarations, scanner configurations, productions with all symbol attributes). non-trivial: grammar accepted",
         tv_module="ParModel", boundary="roundtrip", nontrivial_tags=["accepted"], extra_vectors=extra, exhaustive=False,
